@@ -43,6 +43,9 @@ def run_case(rs, ctx):
         gen.gen_ops(rs, cfg, sh, int(rs.integers(0, 4)), ["partial_fit", "add_arm", "remove_arm", "warm_start"])
     queries = gen.gen_ops(rs, cfg, sh, int(rs.integers(1, 7)), ["predict", "predict_expectations"], sizes=(1, 2, 3, 5, 8))
     cont = gen.gen_continuation(rs, cfg, sh)
+    for o in cont + queries:
+        if o["op"] in ("predict", "predict_expectations") and o.get("X") is not None and gen.is_ctx(cfg) and rs.integers(3) == 0:
+            o["X"][-1] = [50.0 + v for v in o["X"][-1]]  # a far-away row: empty neighbourhood for Radius, rare bucket for LSH
     A = gen.build(cfg)
     wit = {"cfg": cfg, "history": hist, "queries": queries, "continuation": cont}
     o = gen.run_ops(A, hist)
